@@ -293,12 +293,6 @@ theorem gauss4_exact (a b wa wb : K) (hsum : a ^ 2 + b ^ 2 = 6 / 7) (hprod : a ^
   interval_cases k <;> simp [moment, sumRange_four, idealMoment] <;> (try norm_num) <;>
     first | ring1 | linear_combination e0 | linear_combination e2 | linear_combination e4 | linear_combination e6
 
-theorem sumRange_mul_left (c : K) (f : ℕ → K) (n : ℕ) :
-    sumRange (fun k => c * f k) n = c * sumRange f n := by
-  induction n with
-  | zero => simp [sumRange_zero]
-  | succ n ih => rw [sumRange_succ, sumRange_succ, ih]; ring
-
 /-- a rule which integrates the monomials of degree `≤ d` exactly integrates every polynomial
 `Σ_{k ≤ d} c_k ξ^k` exactly -/
 theorem quadrature_exact_of_moments (p : ℕ) (G : Gauss K) (d : ℕ) (h : ExactTo p G d) (c : ℕ → K) :
